@@ -440,18 +440,48 @@ func checkC01(c *Ctx, r *Report) {
 		if fn == nil {
 			continue
 		}
-		gets := callsInNamed(fn, "(*utils/cache.BlobMemoryCache).Get")
-		ok := len(gets) >= 1
-		for _, g := range gets {
-			if g.Instr.Common().Args[1] != fn.Params[1] {
-				ok = false
+		// sources: memCache.Get(name), or a helper of the package that only returns
+		// nil or memCache.Get of one of its own parameters (called with name there)
+		var srcs []ssa.Value
+		ok := true
+		for _, cs := range callsIn(fn) {
+			cc := cs.Instr.Common()
+			if cs.Callee == "(*utils/cache.BlobMemoryCache).Get" {
+				if cc.Args[1] != fn.Params[1] {
+					ok = false
+				}
+				srcs = append(srcs, cs.Instr.Value())
+				continue
+			}
+			sf := cc.StaticCallee()
+			if sf == nil || sf.Pkg != fn.Pkg {
+				continue
+			}
+			if pi := memGetLike(sf); pi >= 0 {
+				if pi >= len(cc.Args) || cc.Args[pi] != fn.Params[1] {
+					ok = false
+				}
+				srcs = append(srcs, cs.Instr.Value())
 			}
 		}
-		// any MemoryEntry field load must derive from a Get result
+		if len(srcs) == 0 {
+			ok = false
+		}
+		fromSrc := func(v ssa.Value) bool {
+			return mentions(v, func(w ssa.Value) bool {
+				for _, s := range srcs {
+					if w == s {
+						return true
+					}
+				}
+				return false
+			}, 6)
+		}
+		// any MemoryEntry field load must derive from a source
 		instrsOf(fn, func(in ssa.Instruction) {
 			if fa, isFA := in.(*ssa.FieldAddr); isFA {
 				if n, _ := fieldName(fa); strings.HasPrefix(n, tMemEntry+".") {
-					if !mentionsCall(fa.X, "(*utils/cache.BlobMemoryCache).Get") {
+					if !fromSrc(fa.X) {
 						ok = false
 					}
 				}
@@ -459,4 +489,37 @@ func checkC01(c *Ctx, r *Report) {
 		})
 		r.Check(ok, r5, fn, "memory read", nil, "entry from Get(name)", "a read override serves memory data that does not come from memCache.Get of the requested name")
 	}
+}
+
+// memGetLike: fn returns, on every path, nil or the result of
+// BlobMemoryCache.Get applied to one of fn's own parameters; returns that
+// parameter's index (in Params, receiver included) or -1.
+func memGetLike(fn *ssa.Function) int {
+	idx := -1
+	for _, ret := range returnsOf(fn) {
+		if len(ret.Results) != 1 {
+			return -1
+		}
+		v := unspill(ret.Results[0])
+		if isNilConst(v) {
+			continue
+		}
+		cl, ok := v.(*ssa.Call)
+		if !ok || calleeName(cl.Common()) != "(*utils/cache.BlobMemoryCache).Get" {
+			return -1
+		}
+		p, isP := cl.Call.Args[1].(*ssa.Parameter)
+		if !isP {
+			return -1
+		}
+		for i, q := range fn.Params {
+			if q == p {
+				if idx >= 0 && idx != i {
+					return -1
+				}
+				idx = i
+			}
+		}
+	}
+	return idx
 }
